@@ -72,3 +72,8 @@ static parsec_key_t ref_key_of(const REF_TP_T *tp, const int *g, int c, const in
     if (c == 1) { __parsec_derived_Q_parsec_assignment_t a = { 0 }; ref_Q_fill(&a, g, p); return __jdf2c_make_key_Q((const parsec_taskpool_t *)tp, (const parsec_assignment_t *)&a); }
     return 0;
 }
+
+/* OUT side, final write-back: does output flow f of (c, p) end in a data collection?  (none in this JDF) */
+static int ref_final_write(const int *g, int c, const int *p, int f, int *co, int *which)
+{ (void)g; (void)c; (void)p; (void)f; (void)co; (void)which; return 0; }
+static parsec_data_collection_t *ref_collection(REF_TP_T *tp, int which) { (void)which; return tp->super._g_descA; }
